@@ -11,14 +11,35 @@ Nothing here decides a verdict; it only widens the workload.
 
 from __future__ import annotations
 
-import numpy as np
-import onnx_ir as ir
+import atexit
+import hashlib
+import logging
+import os
+import random
+import shutil
+import tempfile
+import weakref
 
+import numpy as np
+import onnx
+import onnx.numpy_helper
+import onnx_ir as ir
+import onnx_ir.tensor_adapters  # noqa: F401 - TorchTensor
+
+try:  # imported here, before the shard freezes the start-up heap (gc.freeze): a later import would put
+    import torch  # torch's objects into every gc.collect() of the liveness monitor
+except ImportError:  # pragma: no cover
+    torch = None
+
+from vfpy import gen_proto
 from vfpy.gen_ops import Gen
-from vfpy.world import OPS, Result, Skip, World
+from vfpy.world import OPS, PickyTensor, Result, Skip, World
+
+# "Input 'x' of node ... cannot be found in any scope" for stand-alone node / graph messages: output only
+logging.getLogger("onnx_ir.serde").setLevel(logging.ERROR)
 
 XOPS: dict = {}
-MARKERS = {"J_enter", "J_exit", "J_hook", "J_hook_clear", "J_fault"}
+MARKERS = {"J_enter", "J_exit", "J_hook", "J_hook_clear", "J_fault", "J_inspect"}
 HOOK_KINDS = ["observe", "observe", "observe", "fault", "fault", "touch"]
 
 
@@ -39,6 +60,23 @@ class World20(World):
         self.attrs: list = []
         self.lazy_evals = 0
         self.cyclic = False
+        self._scratch = None
+        self.saves = 0
+
+    @property
+    def scratch(self) -> str:
+        """A directory of this world's own (so that the files an earlier run left cannot be seen by this
+        one); removed with the world.  Its path is not state: ``norm`` replaces it in messages."""
+        if self._scratch is None:
+            self._scratch = tempfile.mkdtemp(prefix="w-", dir=scratch_root())
+            weakref.finalize(self, shutil.rmtree, self._scratch, True)
+        return self._scratch
+
+    def norm(self, text: str) -> str:
+        return text.replace(self._scratch, "<scratch>") if self._scratch else text
+
+    def M(self, i):  # noqa: N802
+        return self._pick(self.models, i)
 
     def X(self, i):  # noqa: N802
         return self._pick(self.xtensors, i)
@@ -115,6 +153,20 @@ class World20(World):
         }
 
 
+_SCRATCH_ROOT = None
+
+
+def scratch_root() -> str:
+    global _SCRATCH_ROOT
+    if _SCRATCH_ROOT is None:
+        d = os.environ.get("VF_SHARD_TMP")
+        if not d:  # a replay outside the runner
+            d = tempfile.mkdtemp(prefix="vf-c20-")
+            atexit.register(shutil.rmtree, d, True)
+        _SCRATCH_ROOT = d
+    return _SCRATCH_ROOT
+
+
 # ---- setters the shared alphabet does not reach ---------------------------------------------------
 def _setter(pool, attr):
     def make(w, i, value):
@@ -168,7 +220,16 @@ def _g_clone(w, g):
 
 
 # ---- tensors ----------------------------------------------------------------------------------------
-TENSOR_KINDS = ["tensor_fn", "Tensor", "String", "Lazy", "LazyCached", "External", "Packed", "tensor_list", "bad"]
+TENSOR_KINDS = ["tensor_fn", "Tensor", "String", "Lazy", "LazyCached", "External", "Packed", "tensor_list", "bad",
+                # every other tensor class of the library and every other public way to one
+                "ProtoTensor", "deser_tensor", "from_proto_tensor", "tensor_of_proto", "ExternalReal", "Torch", "Picky",
+                "tensor_strs", "ProtoTensorStr"]
+
+
+def _small_tensor_proto(k: int, name: str, strings: bool = False) -> onnx.TensorProto:
+    if strings:
+        return onnx.numpy_helper.from_array(np.array([b"a", b"bc", b""][: k % 3 + 1], dtype=object), name=name)
+    return onnx.numpy_helper.from_array(np.arange(k + 1, dtype=np.float32), name=name)
 
 
 @xop("tensor")
@@ -196,10 +257,173 @@ def _tensor(w, kind, k):
             t = ir.PackedTensor(np.zeros(2, dtype=np.uint8), ir.DataType.INT4, shape=[4], name=name)
         elif kind == "tensor_list":
             t = ir.tensor([1, 2, k], dtype=ir.DataType.INT32, name=name)
+        elif kind == "ProtoTensor":  # the proto-backed tensor class, constructed directly
+            t = ir.TensorProtoTensor(_small_tensor_proto(k, name))
+        elif kind == "ProtoTensorStr":
+            t = ir.TensorProtoTensor(_small_tensor_proto(k, name, strings=True))
+        elif kind == "deser_tensor":
+            t = ir.serde.deserialize_tensor(_small_tensor_proto(k, name, strings=(k == 3)))
+        elif kind == "from_proto_tensor":
+            t = ir.from_proto(_small_tensor_proto(k, name))
+        elif kind == "tensor_of_proto":
+            t = ir.tensor(_small_tensor_proto(k, name), name=name)
+        elif kind == "ExternalReal":  # an external tensor whose file exists
+            path = os.path.join(w.scratch, f"real{k}.bin")
+            with open(path, "wb") as f:
+                f.write(np.arange(3, dtype=np.float32).tobytes())
+            t = ir.ExternalTensor(f"real{k}.bin", 0, 12, ir.DataType.FLOAT, shape=ir.Shape([3]), name=name,
+                                  base_dir=w.scratch)
+        elif kind == "Torch" and torch is not None:
+            t = ir.tensor_adapters.TorchTensor(torch.arange(k + 1, dtype=torch.float32), name=name)
+        elif kind == "Picky":  # a user-defined tensor class
+            t = PickyTensor(np.arange(2, dtype=np.float32), name=name)
+        elif kind == "tensor_strs":
+            t = ir.tensor(["a", "bc"][: k % 2 + 1], name=name)
         else:  # a constructor call that is rejected
             t = ir.Tensor(np.zeros(3, dtype=np.float32), dtype=ir.DataType.INT64, name=name)
         w.xtensors.append(t)
         return f"{type(t).__name__}#{len(w.xtensors) - 1}"
+    return run
+
+
+def _sha(b: bytes) -> str:
+    return hashlib.sha1(b).hexdigest()[:12]
+
+
+@xop("x_read")
+def _x_read(w, t, how):
+    """Read a tensor of the pool (a lazy tensor is evaluated by the *client*, inside or outside a journal)."""
+    ten = w.X(t)
+
+    def run():
+        if how == "numpy":
+            a = ten.numpy()
+            return f"{a.dtype}:{a.shape}:{_sha(a.tobytes())}"
+        if how == "tobytes":
+            return _sha(ten.tobytes())
+        return f"{ten.dtype}:{tuple(ten.shape)}:{ten.size}:{ten.nbytes}"
+    return run
+
+
+# ---- deserialisation: the other way IR objects (and the proto-backed tensors) come into being -------------
+FORCE = [(), ("initializers", "attr_tensor"), ("initializers", "external", "string_tensor", "attr_tensors"),
+         ("functions", "attr_graph", "captures", "initializers"), ("initializers", "typed_storage", "tensor_meta", "lowbit")]
+_PROTO_CACHE: dict = {}
+
+
+def _proto(kind: str, seed: int, force: int):
+    """A fresh, well-formed message of ``kind`` (built field by field by vfpy.gen_proto, no onnx_ir involved);
+    a function of the arguments only."""
+    key = (kind, seed, force)
+    b = _PROTO_CACHE.get(key)
+    if b is None:
+        g = gen_proto.ProtoGen(random.Random(seed * 7 + force), force=FORCE[force % len(FORCE)])
+        b = g.build(kind).SerializeToString()
+        if len(_PROTO_CACHE) > 256:
+            _PROTO_CACHE.clear()
+        _PROTO_CACHE[key] = b
+    return getattr(onnx, kind).FromString(b)
+
+
+SERDE_FN = {
+    "ModelProto": lambda p: ir.serde.deserialize_model(p),
+    "GraphProto": lambda p: ir.serde.deserialize_graph(p),
+    "FunctionProto": lambda p: ir.serde.deserialize_function(p),
+    "NodeProto": lambda p: ir.serde.deserialize_node(p),
+    "TensorProto": lambda p: ir.serde.deserialize_tensor(p),
+    "AttributeProto": lambda p: ir.serde.deserialize_attribute(p),
+    "ValueInfoProto": lambda p: ir.serde.deserialize_value_info_proto(p, None),
+    "TypeProto": lambda p: (ir.serde.deserialize_type_proto_for_type(p), ir.serde.deserialize_type_proto_for_shape(p)),
+}
+DESER_ENTRIES = {k: ["from_proto", "serde"] for k in gen_proto.KINDS}
+DESER_ENTRIES["ModelProto"] += ["load", "load"]
+DESER_ENTRIES["TensorProto"] += ["TensorProtoTensor", "tensor()"]
+
+
+def _digest(w, obj) -> str:
+    """What a client can see of a deserialised object, cross-world comparable: its serialisation."""
+    if isinstance(obj, (ir.Model, ir.Graph, ir.Function, ir.Node, ir.Value, ir.Attr)) or isinstance(obj, ir.TensorProtocol):
+        try:
+            return f"{type(obj).__name__}:{_sha(ir.to_proto(obj).SerializeToString(deterministic=True))}"
+        except Exception as e:  # noqa: BLE001 - e.g. an external tensor without its file
+            return f"{type(obj).__name__}:<to_proto raised {type(e).__name__}>"
+    return w.norm(repr(obj))[:300]
+
+
+def _adopt(w, obj) -> str:
+    """Put a deserialised object into the pools: the rest of the history edits it like any other."""
+    if isinstance(obj, ir.Model):
+        w.adopt_model(obj)
+        return f"m{len(w.models) - 1}"
+    if isinstance(obj, ir.Function):
+        w.add_function(obj)
+        w.add_graph(obj.graph)
+    elif isinstance(obj, ir.Graph):
+        w.add_graph(obj)
+    elif isinstance(obj, ir.Node):
+        w.add_node(obj)
+    elif isinstance(obj, ir.Value):
+        w.add_value(obj)
+    elif isinstance(obj, ir.Attr):
+        w.attrs.append(obj)
+        return f"attr#{len(w.attrs) - 1}"
+    elif isinstance(obj, ir.TensorProtocol):
+        w.xtensors.append(obj)
+        return f"x#{len(w.xtensors) - 1}"
+    else:
+        return "-"
+    return w.label(obj)
+
+
+@xop("deser")
+def _deser(w, kind, seed, force, entry, adopt):
+    def run():
+        proto = _proto(kind, seed, force)
+        if entry == "from_proto":
+            obj = ir.from_proto(proto)
+        elif entry == "serde":
+            obj = SERDE_FN[kind](proto)
+        elif entry == "TensorProtoTensor":
+            obj = ir.TensorProtoTensor(proto)
+        elif entry == "tensor()":
+            obj = ir.tensor(proto)
+        else:  # "load": through a file
+            path = os.path.join(w.scratch, f"gen-{seed}-{force}.onnx")
+            with open(path, "wb") as f:
+                f.write(proto.SerializeToString())
+            obj = ir.load(path)
+        d = _digest(w, obj)
+        return d + "|" + (_adopt(w, obj) if adopt else "dropped")
+    return run
+
+
+@xop("ser_rt")
+def _ser_rt(w, what, i, adopt):
+    """Serialise an object of the world and deserialise the message again (a copy made of proto-backed parts)."""
+    obj = {"g": w.G, "m": w.M, "f": w.F, "n": w.N, "v": w.V, "x": w.X, "a": w.A}[what](i)
+
+    def run():
+        back = ir.from_proto(ir.to_proto(obj))
+        return _digest(w, back) + "|" + (_adopt(w, back) if adopt else "dropped")
+    return run
+
+
+@xop("save_load")
+def _save_load(w, m, ext, adopt):
+    """ir.save (optionally moving every tensor into an external data file) and ir.load of the file."""
+    model = w.M(m)
+
+    def run():
+        w.saves += 1
+        d = os.path.join(w.scratch, f"sl{w.saves}")
+        os.makedirs(d)
+        path = os.path.join(d, "m.onnx")
+        if ext:
+            ir.save(model, path, external_data="m.data", size_threshold_bytes=0)
+        else:
+            ir.save(model, path)
+        back = ir.load(path)
+        return _digest(w, back) + "|" + (_adopt(w, back) if adopt else "dropped")
     return run
 
 
@@ -504,6 +728,11 @@ def _j_fault(w, *a):
     raise Skip()
 
 
+@xop("J_inspect")
+def _j_inspect(w, *a):
+    raise Skip()
+
+
 # =============================================================================================
 # generator
 # =============================================================================================
@@ -515,6 +744,7 @@ XWEIGHTS = {
     "kw_prepend": 0.5, "kw_n_append": 0.5, "gen_extend": 0.6, "kw_in_set": 0.5, "kw_rauw": 0.5,
     "pos_rauw": 0.8, "pos_remove": 0.8, "kw_io_set": 0.5, "kw_in_del": 0.4, "kw_attr_setitem": 0.5, "pos_val": 0.4,
     "kw_attr": 0.6, "kw_func": 0.3,
+    "deser": 3.0, "ser_rt": 1.0, "save_load": 0.5, "x_read": 1.0,
 }
 
 
@@ -523,9 +753,12 @@ class Gen20:
     ``node_in_graph=False`` rewrites ``Node(..., graph=c)`` into ``Node(...)`` followed by
     ``c.append(node)`` (same resulting state through two public calls)."""
 
-    def __init__(self, rng, w: World20, hostile: float, p_ext: float, node_in_graph: bool):
+    def __init__(self, rng, w: World20, hostile: float, p_ext: float, node_in_graph: bool, collaborators: bool = False):
         self.rng, self.w, self.p_ext, self.node_in_graph = rng, w, p_ext, node_in_graph
-        self.g = Gen(rng, w, hostile, weights={"n_op": 1.5, "func": 1.2}, avoid={"owned_node_outputs"})
+        # collaborators: values may be backed by the proto-backed tensor / a user tensor class that can
+        # reject a name, and renames may use a name no protobuf string field accepts
+        self.g = Gen(rng, w, hostile, weights={"n_op": 1.5, "func": 1.2}, avoid={"owned_node_outputs"},
+                     collaborators=collaborators)
         self.queue: list = []
         self._names = list(XWEIGHTS)
         self._wts = [XWEIGHTS[n] for n in self._names]
@@ -586,6 +819,30 @@ class Gen20:
 
     def _x(self):
         return self.rng.randrange(max(1, len(self.w.xtensors)))
+
+    def _x_read(self):
+        if not self.w.xtensors:
+            return self._tensor()
+        return ["x_read", self._x(), self.rng.choice(["numpy", "tobytes", "meta"])]
+
+    def _deser(self):
+        rng = self.rng
+        kind = rng.choice(["ModelProto", "ModelProto", "ModelProto", "GraphProto", "FunctionProto", "NodeProto",
+                           "TensorProto", "TensorProto", "AttributeProto", "ValueInfoProto", "TypeProto"])
+        return ["deser", kind, rng.randrange(100000), rng.randrange(len(FORCE)), rng.choice(DESER_ENTRIES[kind]),
+                rng.random() < 0.6]
+
+    def _ser_rt(self):
+        rng, w = self.rng, self.w
+        what = rng.choice([k for k, pool in (("g", w.graphs), ("m", w.models), ("f", w.functions), ("n", w.nodes),
+                                             ("v", w.values), ("x", w.xtensors), ("a", w.attrs)) if pool] or ["g"])
+        return ["ser_rt", what, rng.randrange(64), rng.random() < 0.5]
+
+    def _save_load(self):
+        if not self.w.models:
+            return self._deser() if self.rng.random() < 0.5 else self._model()
+        return ["save_load", self.rng.randrange(max(1, len(self.w.models))), self.rng.random() < 0.6,
+                self.rng.random() < 0.5]
 
     def _a(self):
         return self.rng.randrange(max(1, len(self.w.attrs)))
@@ -719,7 +976,11 @@ class Gen20:
         return ["kw_func", self.g.any_g(), self.rng.choice(["f", "g", "h"])]
 
 
-def insert_markers(rng, ops: list, max_depth: int = 3, faultable=()) -> list:
+INSPECTOR_NAMES = ["entry.ref()", "entry.obj", "entry.details", "entry.public-attributes", "entry.display()",
+                   "Journal.display()", "filter-by-operation-and-class", "repr/eq/copy"]
+
+
+def insert_markers(rng, ops: list, max_depth: int = 3, faultable=(), inspectors: bool = True) -> list:
     """Journal markers (see ``_journal_markers``) and then, when ``faultable`` names operation kinds,
     markers that configure the journals through their public hook API:
 
@@ -729,7 +990,42 @@ def insert_markers(rng, ops: list, max_depth: int = 3, faultable=()) -> list:
     kind is in ``faultable`` and a journal is active, is executed with the innermost journal's fault
     hook armed; the caller handles the hook's exception and repeats the call.  All of them are no-ops
     outside a journal and in the plain run."""
-    items = _journal_markers(rng, ops, max_depth)
+    items = _hook_markers(rng, _journal_markers(rng, ops, max_depth), max_depth, faultable)
+    return _inspect_markers(rng, items, max_depth) if inspectors else items
+
+
+def _inspect_markers(rng, items: list, max_depth: int) -> list:
+    """``["J_inspect", [inspector, ...]]``: the client looks at the entries of the journals used so far
+    through the named public accessors (vfpy.c20_mon.INSPECTORS) - while a journal is active and / or
+    after the last one was left, i.e. while the recorded objects are still alive.  A no-op in the plain run."""
+    style = rng.choice(["none", "end", "end", "end", "mid", "both", "both"])
+    if style == "none":
+        return items
+
+    def names():
+        r = rng.random()
+        if r < 0.55:
+            return [rng.choice(INSPECTOR_NAMES)]
+        if r < 0.75:
+            return sorted(rng.sample(INSPECTOR_NAMES, 2), key=INSPECTOR_NAMES.index)
+        return list(INSPECTOR_NAMES)
+    out: list = []
+    depth = mid = 0
+    for it in items:
+        if it[0] == "J_enter":
+            depth = min(max_depth, depth + 1)
+        elif it[0] == "J_exit":
+            depth = max(0, depth - int(it[2]))
+        elif it[0] not in MARKERS and depth > 0 and style in ("mid", "both") and mid < 2 and rng.random() < 0.04:
+            out.append(["J_inspect", names()])
+            mid += 1
+        out.append(it)
+    if style in ("end", "both") or not mid:
+        out.append(["J_inspect", names()])
+    return out
+
+
+def _hook_markers(rng, items: list, max_depth: int, faultable) -> list:
     if not faultable:
         return items
     style = rng.choice(["none", "observe", "fault", "fault", "mixed", "mixed", "mixed"])
